@@ -144,10 +144,10 @@ func (c *Ctx) eval(x Expr) CVal {
 			return CVal{T: e.mulTerm(l, r)}
 		case "/":
 			l, r := c.evalInt(x.L), c.evalInt(x.R)
-			return CVal{T: Term{app("div", l.S, r.S), sInt}}
+			return CVal{T: e.divTerm(l, r)}
 		case "%":
 			l, r := c.evalInt(x.L), c.evalInt(x.R)
-			return CVal{T: Term{app("mod", l.S, r.S), sInt}}
+			return CVal{T: e.modTerm(l, r)}
 		}
 	case *ELet:
 		v := c.eval(x.Val)
@@ -201,9 +201,21 @@ func (c *Ctx) eval(x Expr) CVal {
 			}
 		}
 		if strings.HasPrefix(b.T.Sort, "(Array Int ") {
-			return CVal{T: tSelect(b.T, i)}
+			var gt types.Type
+			if at, ok := b.GT.(*types.Array); ok {
+				gt = at.Elem()
+			}
+			return CVal{T: tSelect(b.T, i), GT: gt}
 		}
 		cfail("cannot index %s", exprString(x.X))
+	case *EStore:
+		b := c.eval(x.X)
+		if !strings.HasPrefix(b.T.Sort, "(Array Int ") {
+			cfail("array update on non-array %s", exprString(x.X))
+		}
+		i := c.evalInt(x.I)
+		v := c.eval(x.V)
+		return CVal{T: tStore(b.T, i, v.T), GT: b.GT}
 	case *EUpd:
 		b := c.eval(x.X)
 		if b.GT == nil {
@@ -295,6 +307,14 @@ func (c *Ctx) evalCall(x *ECall) CVal {
 	case "allocated":
 		v := c.evalInt(x.Args[0])
 		return CVal{T: tAnd(Term{app("<=", "0", v.S), sBool}, Term{app("<", v.S, c.st.alloc.S), sBool})}
+	case "elems": // contents of a slice as a mathematical array (offset must be 0)
+		v := c.eval(x.Args[0])
+		sl, ok := v.GT.Underlying().(*types.Slice)
+		if !ok {
+			cfail("elems of non-slice")
+		}
+		h := c.st.heapGet(e, elemHeapName(sl.Elem()), arrSort(arrSort(e.reg.sortOf(sl.Elem()))))
+		return CVal{T: tSelect(h, Term{app("Slice_arr", v.T.S), sInt}), GT: types.NewArray(sl.Elem(), 0)}
 	case "arr": // backing array identity of a slice
 		v := c.eval(x.Args[0])
 		return CVal{T: Term{app("Slice_arr", v.T.S), sInt}}
@@ -395,6 +415,8 @@ func exprString(x Expr) string {
 		return "let " + x.Name + " = " + exprString(x.Val) + " in " + exprString(x.Body)
 	case *EUpd:
 		return exprString(x.X) + "{" + x.F + ": " + exprString(x.V) + "}"
+	case *EStore:
+		return exprString(x.X) + "[" + exprString(x.I) + " := " + exprString(x.V) + "]"
 	case *evaluated:
 		return "<" + x.v.T.S + ">"
 	}
